@@ -400,6 +400,12 @@ int reb_simulation_remove_particle(struct reb_simulation* const r, int index, in
         }
     }
 
+	if (index >= (int)r->N || index < 0){
+		char warning[1024];
+        sprintf(warning, "Index %d passed to particles_remove was out of range (N=%d).  Did not remove particle.", index, r->N);
+		reb_simulation_error(r, warning);
+		return 0;
+	}
 	if (r->N==1){
 	    r->N = 0;
         if(r->free_particle_ap){
@@ -407,12 +413,6 @@ int reb_simulation_remove_particle(struct reb_simulation* const r, int index, in
         }
 		reb_simulation_warning(r, "Last particle removed.");
 		return 1;
-	}
-	if (index >= (int)r->N || index < 0){
-		char warning[1024];
-        sprintf(warning, "Index %d passed to particles_remove was out of range (N=%d).  Did not remove particle.", index, r->N);
-		reb_simulation_error(r, warning);
-		return 0;
 	}
 	if (r->N_var){
 		reb_simulation_error(r, "Removing particles not supported when calculating MEGNO.  Did not remove particle.");
